@@ -79,6 +79,11 @@ def observe(c):
                 exp = complex(np.trace(Dn))
                 if abs(tr - exp) > build.tol_for(tdt, max(1.0, float(np.max(np.abs(Dn))))) * n:
                     V("trace", f"trace(A, {aname}) = {tr} but the trace is {exp}", alg=aname)
+            except AssertionError as e:
+                # trace(Kronecker) multiplies the factors' traces and refuses non-square factors: an allowed refusal
+                if "Can't trace non square matrix" not in str(e):
+                    V("exception", f"trace(A, {aname}) raised AssertionError: {str(e)[:140]}", alg=aname, what="trace",
+                      **common.exc_info(e))
             except Exception as e:  # noqa: BLE001
                 V("exception", f"trace(A, {aname}) raised {type(e).__name__}: {str(e)[:140]}", alg=aname, what="trace",
                   **common.exc_info(e))
@@ -155,7 +160,7 @@ def run(tier):
                                   {"n": n, "k": k, "dt": dt, "divisible": n % min(100, n) == 0,
                                    "model": model.get((n, min(100, n), k), "n/a")}, msg, replay={"prober": [n, k, dt]}))
     # (a) structural rules
-    cases, stats = opsfam.run_model(PROP, linalgfam.plan(tier, common.seed()))
+    cases, stats = opsfam.run_model(PROP, linalgfam.plan(tier, common.seed(), nonsq=True))
     cases = linalgfam.linalg_cases(cases)
     total = len(cases)
     if tier == "quick" and len(cases) > 7000:
